@@ -417,6 +417,15 @@ def run(ctx):
 
 def replay(ctx, payload):
     viol = []
+    if "scenario_repr" in payload and "position" in payload:      # a long-lived Option object vs fresh ones
+        scn = cp.load_scn(payload["scenario_repr"])
+        lines = core.run_impl(scn)
+        diffs = []
+        for j, (op, line) in enumerate(zip(scn["ops"], lines)):
+            one = core.run_impl(dict(scn, ops=[op]))[0]
+            if cp.split(one)[0] != cp.split(line)[0]:
+                diffs.append(dict(position=j, long_lived=cp.split(line)[0], fresh=cp.split(one)[0], options=repr(op[4])))
+        return bool(diffs), dict(differences=diffs[:3])
     if "scenario_repr" in payload and "expr" in payload:
         scn = cp.load_scn(payload["scenario_repr"])
         e = scn["exprs"][0]
